@@ -129,7 +129,8 @@ def judgeScheme (op : String) (out : List String) : PS Bool := do
     if sameFrom && impl != v then failPS "wk_adjustpre: model of the code differs from direct precomputation: model out of date"
     pure true
   | "wk_resample" =>
-    let pi ← liftP nextNat; let ri ← liftP nextNat; let ki ← liftP nextNat; let further := (← liftP next) == "1"; let stream ← liftP nextBytes
+    let pi ← liftP nextNat; let ri ← liftP nextNat; let ki ← liftP nextNat; let ftok ← liftP next; let further := ftok == "1" || ftok == "3"   -- "2"/"3": the same call made in place (output object = input key)
+    let stream ← liftP nextBytes
     let pr ← getParams pi; let kr ← getKey ki
     let pre ← match st.pres[ri]? with | some p => pure p | none => failPS "pre index"
     let (t, s) := xrand { bytes := stream }
@@ -228,7 +229,11 @@ def judgeScheme (op : String) (out : List String) : PS Bool := do
   | "wk_sigmod" =>
     let si ← liftP nextNat; let which ← liftP next
     let sg ← match st.sigs[si]? with | some s => pure s | none => failPS "sig index"
-    let sg' := if which == "a0" then { sg with a0 := sg.a0 + g1Gen, valid := false } else { sg with a1 := sg.a1 + g2Gen, valid := false }
+    let sg' := if which == "a0" then { sg with a0 := sg.a0 + g1Gen, valid := false }
+      else if which == "a1" then { sg with a1 := sg.a1 + g2Gen, valid := false }
+      else if which == "neg" then { sg with a0 := Pt.neg sg.a0, a1 := Pt.neg sg.a1, valid := false }
+      else if which == "a0neg" then { sg with a0 := Pt.neg sg.a0, valid := false }
+      else { sg with a1 := Pt.neg sg.a1, valid := false }
     setSt { st with sigs := st.sigs.push sg' }; pure true
   | "wk_verify" | "wk_verifypre" =>
     let pi ← liftP nextNat
